@@ -351,6 +351,15 @@ def r4_encoder(ctx):
         ok, det, term = check_cast(enc, cfg, conds, o, c)
         ctx.ob("R03.4", "encode:length-cast-guarded", ok, "src/protocol/codec.rs:%s" % c["line"],
                det if ok else det + " -> a 65536-byte payload is framed with length field 0 followed by 65536 stray bytes that re-parse as frames")
+    # a refused frame leaves the output buffer untouched: no error exit after the first byte has been put
+    puts = [c for c in enc.calls() if (c.norm or "").split("::")[-1] in ("put_u8", "put_u16", "put_u32", "put_u64", "put_slice", "put", "put_bytes", "extend_from_slice", "put_uint", "put_u16_le", "put_u32_le")]
+    errs = [bi for kind, bi, si, rv in enc.defs().get(0, []) if (kind == "assign" and rv["r"] == "aggregate" and rv["kind"].get("variant") == "Err")
+            or (kind == "call" and (rv["func"].get("c", {}).get("fn") or "").endswith("from_residual"))]
+    if puts:
+        late = [c for c in puts if cfg.reach(cfg.succ(c.bb)) & set(errs)]
+        ctx.ob("R03.4", "encode:refuses-before-writing", not late, late[0].site if late else "", "every error exit of encode lies before the first write to dst (%d error exits)" % len(errs) if not late else
+               "encode can fail after it has already written to dst (line %s): a refused frame leaves a partial header in the output buffer, and whatever is encoded next is appended behind those stray bytes — "
+               "the peer's decoder loses frame alignment" % late[0].line)
     # nothing but the payload is appended after the header
     app = [c for c in enc.calls() if (c.norm or "").split("::")[-1] in ("extend_from_slice", "put_slice", "put", "put_bytes", "extend", "unsplit") and c.args and var_name(o.of_operand(c.args[0])) == "dst"]
     okp = len(app) == 1 and var_name(o.of_operand(app[0].args[1])) == "item.data"
